@@ -180,7 +180,9 @@ pub fn build(ctx: &DefCtx, rng: &mut Rng, all_bytes: bool, cap: usize) -> InputS
             gd.push(path.clone());
         }
         let mut cands: Vec<u8> = vec![];
-        if all_bytes {
+        // states with a fast loop (their membership test is a shared look-up table) get every byte
+        let has_loop = ctx.graph.states[*s].normal.iter().any(|(_, t)| *t == *s);
+        if all_bytes || has_loop {
             cands.extend(0..=255u8);
         } else {
             for (ranges, _) in &ctx.graph.states[*s].normal {
@@ -193,6 +195,12 @@ pub fn build(ctx: &DefCtx, rng: &mut Rng, all_bytes: bool, cap: usize) -> InputS
                 }
             }
             cands.extend_from_slice(&[0x00, b'a', b' ', 0x7F, 0x80, 0xBF, 0xC2, 0xE2, 0xF0, 0xFF]);
+            // a spread of UTF-8 lead bytes (every third one, rotating with the state) and their neighbours
+            let mut lead = 0xC2u16 + (*s as u16 % 3);
+            while lead <= 0xF4 {
+                cands.push(lead as u8);
+                lead += 3;
+            }
             for _ in 0..4 {
                 cands.push(rng.byte());
             }
